@@ -19,21 +19,25 @@ CONTRACTS = ['klepto._archives.{file_archive,dir_archive,sqltable_archive}: __in
 RULE = ('one evaluation = one reader placement (same handle / fresh handle / fresh process / rebuilt from state / copy / unpickled) compared '
         'with the dict model after one write history; distinct_nontrivial = distinct (configuration, history) pairs')
 SCOPE = {
-    'quick': '9 persistent configurations (file pickle/json/source-text, dir pickle/compressed/memmap/json/source-text, sqlite table); 7 fixed and 9 seeded '
+    'quick': '9 persistent configurations (file pickle/json/source-text, dir pickle/compressed/memmap/json/source-text, sqlite table); 11 fixed (4 of them write one key several times: overwrite-then-remove, set back to an earlier value) and 9 seeded '
              'write histories of <=8 operations over 8 keys (strings incl. "-"/"_", int, tuple, bytes where accepted) and 6 values (nested containers, '
              'floats incl. inf, bytes, None); plus snapshot and re-open probes',
-    'thorough': 'as quick with 60 histories of <=12 operations',
+    'thorough': 'as quick with 64 histories of <=12 operations',
 }
 ASSUMPTIONS = ['bounded scope, not a proof', 'the file system and sqlite show every process the same bytes', 'serialized=False archives: the current '
                'directory is importable', 'keys/values restricted to what the backend accepts (json: str keys, JSON-native values; sqlite: basic types)']
 
 
 FIXED = [[('set', 0), ('set', 1), ('clear', 0)], [('set', 0), ('pop', 0)], [('set', 0), ('set', 1), ('pop', 1)],
-         [('update', 0), ('clear', 0), ('set', 2)], [('set', 0), ('update', 1)], [('set', 0), ('set', 0)], [('set', 3), ('clear', 0), ('clear', 0)]]
+         [('update', 0), ('clear', 0), ('set', 2)], [('set', 0), ('update', 1)], [('set', 0), ('set', 0)], [('set', 3), ('clear', 0), ('clear', 0)],
+         # one key written several times (a backend that keeps a row or a file per write must not let an older one show through):
+         # overwritten then removed; set back to a value it held before; overwritten, removed, written again
+         [('set', 1, 0), ('set', 0, 0), ('set', 0, 1), ('pop', 0)], [('set', 0, 0), ('set', 0, 1), ('set', 0, 0)],
+         [('set', 0, 1), ('set', 0, 0), ('pop', 0), ('set', 0, 1), ('set', 1, 1)], [('set', 0, 0), ('set', 0, 1), ('clear', 0), ('set', 1, 0)]]
 
 
 def units(tier, seed):
-    n, ln = (60, 12) if tier == 'thorough' else (16, 8)
+    n, ln = (64, 12) if tier == 'thorough' else (20, 8)
     return [('hist', cid, n, ln, seed) for (cid, k, w, d) in AR.configs() if AR.is_persistent(cid)]
 
 
@@ -112,6 +116,8 @@ def run_unit(unit):
                         r = {'set': 0.1, 'pop': 0.6, 'update': 0.8, 'clear': 0.87, 'mut': 0.95}[fixed[step][0]]
                     if r < 0.55:
                         v = values[-1] if (fixed and h == 5) else rnd.choice(values)
+                        if fixed and len(fixed[step]) > 2:
+                            v = values[fixed[step][2] % len(values)]
                         a[k] = v
                         model[k] = v
                         hist.append(('set', repr(k), repr(v)))
